@@ -469,6 +469,10 @@ ME = "distance3d/mesh.py"
 RB = "distance3d/hydroelastic_contact/_rigid_body.py"
 MP = "distance3d/mpr.py"
 _SEEDLIKE = [
+    M(["C15", "C16"], "hydro-x2-from-body1", "distance3d/hydroelastic_contact/_interface.py", "find_contact_surface", "rigid_body2.tetrahedra_points[broad_tetrahedra2]", "rigid_body1.tetrahedra_points[broad_tetrahedra2]", ["R-SIDES", "find_contact_surface"]),
+    M(["C15", "C16"], "hydro-potentials-twice-body1", "distance3d/hydroelastic_contact/_interface.py", "find_contact_surface", "rigid_body2.tetrahedra_potentials", "rigid_body1.tetrahedra_potentials", ["R-SIDES", "find_contact_surface"]),
+    M(["C15", "C16"], "hydro-pair-x-swapped", TI, "intersect_tetrahedron_pair", "contact_plane(X1, X2, epsilon1, epsilon2, youngs_modulus1, youngs_modulus2)", "contact_plane(X1, X2, epsilon2, epsilon1, youngs_modulus1, youngs_modulus2)", ["R-SIDES", "contact_plane"]),
+    M(["C15"], "hydro-plane-distances-same-tetra", TI, "check_tetrahedra_intersect_contact_plane", "plane_distances2 = tetrahedron2.dot(plane_normal) - d", "plane_distances2 = tetrahedron1.dot(plane_normal) - d", ["R-"]),
     M(["C10"], "box-clip-full-size", "distance3d/distance/_box.py", "point_to_box", "half_size = 0.5 * size", "half_size = size", ["R-CLIPSYM", "point_to_box"]),
     M(["C10"], "rect-clip-one-sided", "distance3d/distance/_rectangle.py", "point_to_rectangle", "np.clip(rectangle_coordinates, -rectangle_half_lengths, rectangle_half_lengths)", "np.clip(rectangle_coordinates, 0.0, rectangle_half_lengths)", ["R-CLIPSYM", "point_to_rectangle"]),
     M(["C10"], "linebox-case000-clip-asym", "distance3d/distance/_line_to_box.py", "_case_000", "np.clip(point_in_box, -box_half_size, box_half_size)", "np.clip(point_in_box, -box_half_size, 2.0 * box_half_size)", ["R-CLIPSYM", "_case_000"]),
